@@ -21,6 +21,45 @@ def apply(c):
         ensures r is Err ==> fmt_sink_failed(final(f)), // @C12:display-fails-only-with-the-sink
 """)
     c.wrap(rel, h)
+    # Display for Name: labels separated by dots (R3: enumerate -> counter; R16: `f.write_fmt(format_args!("{}", x))` is
+    # `Display::fmt(x, f)` for a type whose fmt ignores the formatting flags -- Label::fmt only calls write_str)
+    import re
+    from xf import AnchorLost
+    h = "impl<'a> Display for Name<'a> {"
+    # both rewrites are applied where their pattern occurs; a body of another shape is verified as it stands (its safety
+    # obligations and the post-condition below still decide)
+    try:
+        c.enumerate_to_counter(rel, h, 'fmt')
+        has_enum = True
+    except AnchorLost:
+        has_enum = False
+    jb, be = c.body(rel, h, 'fmt')
+    s0 = c.rd(rel)
+    seg, n16 = re.subn(r'f\.write_fmt\(format_args!\("\{\}", ([\w\.\[\]&]+)\)\)', r"vx_label_fmt(&\1, f)", s0[jb:be])
+    c.wr(rel, s0[:jb] + seg + s0[be:])
+    if n16:
+        c.log.append(('rewrite', rel, 'R16 x%d (f.write_fmt(format_args!("{}", label)) -> Display::fmt(label, f))' % n16))
+    # Verus rejects a call through std::fmt::Display (unspecified pre-condition of the external trait method); the wrapper
+    # restates exactly the contract that is *proved* on `impl Display for Label` above
+    c.append(rel, """verus!{
+/// marker: a Label or a reference to one (format_args! takes its arguments by reference, `&T: Display` forwards to `T`)
+pub trait VxIsLabel {}
+impl<'a> VxIsLabel for Label<'a> {}
+impl<'a, 'b> VxIsLabel for &'b Label<'a> {}
+#[verifier::external_body]
+pub fn vx_label_fmt<L: VxIsLabel + std::fmt::Display>(label: &L, f: &mut std::fmt::Formatter<'_>) -> (r: std::fmt::Result)
+    ensures r is Err ==> fmt_sink_failed(final(f)),
+{ std::fmt::Display::fmt(label, f) }
+}
+""")
+    c.contract(rel, h, 'fmt', """
+        ensures r is Err ==> fmt_sink_failed(final(f)), // @C12:display-fails-only-with-the-sink
+""")
+    if has_enum:
+        c.loop_spec(rel, h, 'fmt', 0, """
+            invariant i == vx_it.index@, 0 <= i <= self.labels@.len(), i <= self.labels.len(),
+""", iter_name='vx_it')
+    c.wrap(rel, h)
     rel = 'dns/character_string.rs'
     h = "impl<'a> Display for CharacterString<'a> {"
     c.contract(rel, h, 'fmt', """
